@@ -319,6 +319,10 @@ impl Table {
 
     /// Gets the given key's corresponding entry in the Table for in-place manipulation.
     pub fn entry<'a>(&'a mut self, key: &str) -> Entry<'a> {
+        // A placeholder left behind by mutable indexing is not an entry
+        if matches!(self.items.get(key), Some(Item::None)) {
+            self.items.shift_remove(key);
+        }
         // Accept a `&str` rather than an owned type to keep `InternalString`, well, internal
         match self.items.entry(key.into()) {
             indexmap::map::Entry::Occupied(entry) => Entry::Occupied(OccupiedEntry { entry }),
@@ -328,6 +332,10 @@ impl Table {
 
     /// Gets the given key's corresponding entry in the Table for in-place manipulation.
     pub fn entry_format<'a>(&'a mut self, key: &Key) -> Entry<'a> {
+        // A placeholder left behind by mutable indexing is not an entry
+        if matches!(self.items.get(key.get()), Some(Item::None)) {
+            self.items.shift_remove(key.get());
+        }
         // Accept a `&Key` to be consistent with `entry`
         match self.items.entry(key.clone()) {
             indexmap::map::Entry::Occupied(entry) => Entry::Occupied(OccupiedEntry { entry }),
